@@ -7,6 +7,7 @@ From Coq Require Import List NArith ZArith Bool.
 From PV Require Import Lib.ListX Model.Json Model.VersionReq Model.Serde Model.SerdeDoc Model.SerdeStaged.
 From PV Require Import Proofs.SerdeCodecProofs Proofs.VersionReqProofs Proofs.SerdeProofs Proofs.SerdeDeProofs Proofs.SerdeStaged.
 From PV Require Import Gen.GenSerde Gen.GenEntry.
+From PV Require Model.Lexer.   (* C17's lexer model, read-only, qualified *)
 Import ListNotations.
 
 Notation env := GenSerde.env.
@@ -261,6 +262,60 @@ Section StagesLexer.
   Qed.
 End StagesLexer.
 Print Assumptions c15_staged_eq_direct_if_lexer_rejects_nonfinite.
+
+(* ---- the lexer hypothesis discharged against C17's lexer model (Model/Lexer.v, mirrors prqlc-parser's lexer since d8fda67:
+   `non_finite_literals` rejects a source with a number literal whose f64 value is not finite).  What is left as tested
+   premises: the parser and the resolver make no non-finite float out of finite tokens / values. ---- *)
+Theorem c15_lexer_model_rejects_nonfinite : forall ia ian T s ts,
+  Lexer.lex ia ian T s = Some ts -> forallb Lexer.tok_finite ts = true.
+Proof.
+  intros ia ian T s ts. unfold Lexer.lex.
+  destruct (Lexer.lex_loop ia ian T _ _ s) as [l|]; [|discriminate].
+  destruct (forallb Lexer.tok_finite l) eqn:E; [|discriminate].
+  intro H. injection H as <-. cbn [forallb]. rewrite E. reflexivity.
+Qed.
+Print Assumptions c15_lexer_model_rejects_nonfinite.
+
+Section StagesLexerModel.
+  Variables opts sql err errc : Type.
+  Variable ia ian : Lexer.chr -> bool.
+  Variable T : Lexer.tables.
+  Variable lex_err : str -> err.
+  Variable parse_tokens : list Lexer.token -> res err value.
+  Variable resolve : value -> res err value.
+  Variable gen : opts -> value -> res err sql.
+  Variables tagNR tagSQL : err -> err.
+  Variable compose : str -> opts -> err -> err.
+  Variable compose1 : str -> err -> err.
+  Variable json_err : json -> err.
+  Variable core : err -> errc.
+  Definition lex_model (s : str) : res err (list Lexer.token) :=
+    match Lexer.lex ia ian T s with Some ts => Ok ts | None => Err (lex_err s) end.
+  Notation parse := (parse_of str err Lexer.token lex_model parse_tokens).
+  Hypothesis Hparse_wt : forall s v, parse s = Ok v -> wt env dPL v.
+  Hypothesis Hresolve_wt : forall v w, resolve v = Ok w -> wt env dRQ w.
+  Hypothesis Hcore_compose : forall s o e, core (compose s o e) = core e.
+  Hypothesis Hcore_compose1 : forall s e, core (compose1 s e) = core e.
+  Hypothesis Hparse_finite : forall ts v, forallb Lexer.tok_finite ts = true -> parse_tokens ts = Ok v -> json_ok v = true.
+  Hypothesis Hresolve_finite : forall v w, json_ok v = true -> resolve v = Ok w -> json_ok w = true.
+
+  Theorem c15_staged_eq_direct_lexer_model : forall s o,
+    SerdeStaged.observe sql err errc core
+      (SerdeStaged.staged str opts sql err env dPL dRQ parse resolve gen tagNR tagSQL compose1 json_err s o)
+    = SerdeStaged.observe sql err errc core
+      (SerdeStaged.compile str opts sql err parse resolve gen tagNR tagSQL compose s o).
+  Proof.
+    apply (c15_staged_eq_direct_if_lexer_rejects_nonfinite str opts sql err errc Lexer.token lex_model parse_tokens
+             Lexer.tok_finite resolve gen tagNR tagSQL compose compose1 json_err core
+             Hparse_wt Hresolve_wt Hcore_compose Hcore_compose1).
+    - intros s ts H. unfold lex_model in H.
+      destruct (Lexer.lex ia ian T s) as [l|] eqn:E; [|discriminate]. injection H as <-.
+      exact (c15_lexer_model_rejects_nonfinite ia ian T s l E).
+    - exact Hparse_finite.
+    - exact Hresolve_finite.
+  Qed.
+End StagesLexerModel.
+Print Assumptions c15_staged_eq_direct_lexer_model.
 
 (* the PL of `let m = 1e400`-like sources: Literal(Float(inf)) *)
 Local Open Scope N_scope.
